@@ -43,7 +43,7 @@ def constKeyEq : Val → Val → Bool
   | _, _ => false
 
 def hashable : Val → Bool
-  | .arr .. | .map .. | .set .. | .regexp .. | .opaque .. => false
+  | .arr .. | .map .. | .tmap .. | .set .. | .regexp .. | .opaque .. => false
   | _ => true
 
 inductive CompErr where
